@@ -1270,38 +1270,44 @@ pub fn gen_scene(rng: &mut Rng, em: &mut Emit, surf: usize, cfg: &SceneCfg) {
 
 /// multiplies every length of a drawing call by `f` (a power of two: exact)
 pub fn scale_geometry(op: &mut Op, f: f32) {
+    scale_geometry_xy(op, f, f, f)
+}
+
+/// x coordinates times fx, y coordinates times fy, lengths that have no direction (stroke width,
+/// dashes, arc radii) times fl
+pub fn scale_geometry_xy(op: &mut Op, fx: f32, fy: f32, fl: f32) {
     let sp = |p: &mut PathSpec| {
         for s in p.segs.iter_mut() {
             match s {
                 Seg::M(x, y) | Seg::L(x, y) => {
-                    x.0 *= f;
-                    y.0 *= f;
+                    x.0 *= fx;
+                    y.0 *= fy;
                 }
                 Seg::Q(a, b, c, d) => {
-                    a.0 *= f;
-                    b.0 *= f;
-                    c.0 *= f;
-                    d.0 *= f;
+                    a.0 *= fx;
+                    b.0 *= fy;
+                    c.0 *= fx;
+                    d.0 *= fy;
                 }
                 Seg::C(a, b, c, d, e, g) => {
-                    a.0 *= f;
-                    b.0 *= f;
-                    c.0 *= f;
-                    d.0 *= f;
-                    e.0 *= f;
-                    g.0 *= f;
+                    a.0 *= fx;
+                    b.0 *= fy;
+                    c.0 *= fx;
+                    d.0 *= fy;
+                    e.0 *= fx;
+                    g.0 *= fy;
                 }
                 Seg::Z => {}
                 Seg::Arc(x, y, r, _, _) => {
-                    x.0 *= f;
-                    y.0 *= f;
-                    r.0 *= f;
+                    x.0 *= fx;
+                    y.0 *= fy;
+                    r.0 *= fl;
                 }
                 Seg::Rect(x, y, w, h) => {
-                    x.0 *= f;
-                    y.0 *= f;
-                    w.0 *= f;
-                    h.0 *= f;
+                    x.0 *= fx;
+                    y.0 *= fy;
+                    w.0 *= fx;
+                    h.0 *= fy;
                 }
             }
         }
@@ -1310,16 +1316,17 @@ pub fn scale_geometry(op: &mut Op, f: f32) {
         Op::Fill { path, .. } | Op::PushClip(path) => sp(path),
         Op::Stroke { path, style, .. } => {
             sp(path);
-            style.width.0 *= f;
-            style.dash_offset.0 *= f;
+            style.width.0 *= fl;
+            style.dash_offset.0 *= fl;
             for d in style.dash_array.iter_mut() {
-                d.0 *= f;
+                d.0 *= fl;
             }
         }
         Op::FillRect { rect, .. } => {
-            for v in rect.iter_mut() {
-                v.0 *= f;
-            }
+            rect[0].0 *= fx;
+            rect[1].0 *= fy;
+            rect[2].0 *= fx;
+            rect[3].0 *= fy;
         }
         _ => {}
     }
